@@ -238,7 +238,10 @@ func nativeValidate(k *Kernel, vecs []nativeVector) (int, []string) {
 	vecFile := filepath.Join(dir, fmt.Sprintf("%s-%d.json", k.Name, os.Getpid()))
 	b, _ := json.Marshal(vecs)
 	os.WriteFile(vecFile, b, 0o644)
-	defer os.Remove(vecFile)
+	keep := os.Getenv("SYMGO_KEEPNATIVE") != ""
+	if !keep {
+		defer os.Remove(vecFile)
+	}
 	pdir := k.Pkg
 	if pdir == "." {
 		pdir = ""
@@ -259,6 +262,9 @@ func nativeValidate(k *Kernel, vecs []nativeVector) (int, []string) {
 	}
 	put(filepath.Join(repoRoot, pdir, "zz_verif_entry_test.go"), []byte("package "+pkgName(k.Pkg)+"\n\nfunc vNativeEntry() { "+k.Entry+"() }\n"))
 	defer func() {
+		if keep {
+			return
+		}
 		for _, f := range tmpFiles {
 			os.Remove(f)
 		}
@@ -266,7 +272,11 @@ func nativeValidate(k *Kernel, vecs []nativeVector) (int, []string) {
 	ov, _ := json.Marshal(map[string]interface{}{"Replace": replace})
 	ovFile := filepath.Join(dir, fmt.Sprintf("overlay-%d.json", os.Getpid()))
 	os.WriteFile(ovFile, ov, 0o644)
-	defer os.Remove(ovFile)
+	if keep {
+		fmt.Printf("... native validation kept: VERIF_NATIVE_VECTORS=%s go test -vet=off -count=1 -v -run '^TestVerifNative$' -overlay %s (in %s)\n", vecFile, ovFile, repoRoot)
+	} else {
+		defer os.Remove(ovFile)
+	}
 	pkgArg := "./" + pdir
 	if pdir == "" {
 		pkgArg = "."
